@@ -62,7 +62,7 @@ def psm_frame(
     spec_of_row = spec_of_row[perm]
     nspec = len(mults)
     # spectrum key fields
-    scan = np.arange(1, nspec + 1) * 3 + 100
+    scan = np.arange(1, nspec + 1) * 3 + 100 + 100_003 * file_index  # other spectrum keys (=> other fold hashes) per file
     fname = np.array(["run%d.mzML" % (i % 2) for i in range(nspec)], dtype=object)
     expmass = np.round(500.0 + rng.random(nspec) * 1500.0, 4)
     rt = np.round(rng.random(nspec) * 7200.0, 3)
